@@ -30,7 +30,7 @@ ASSUMPTIONS = [
     "conservation (E): |norm drift| <= 1e-6 k, |energy drift| <= 1e-6 k ||H|| after k <= 5 real-time steps (||H||h in {0.1, 0.5, 1}) of tdvp_ps at a truncated bond dimension (the Krylov kernel stops at successive-iterate agreement rtol 1e-5 / atol 1e-8; observed drift <= 5e-15)",
     "splitting (D): error of two half steps <= 2.5 e^{x} e(h/2) + local bound (imaginary time: exp(-tau H) amplifies relative errors by at most e^{x})",
     "linear tree vs chain: states related by renormalizer.tn.tree.from_mps; the tree result within its bound of the dense reference and, when the chain result is within its own bound, within the sum of the bounds of each other; RK4 P&C within 1e-9 (both are the same Taylor polynomial; observed 2e-15)",
-    "auxiliary space: BasisTree.add_auxiliary_space on models without multi-DoF basis sets, prod(d) <= 16; H given as TTNO on the physical tree (as the repository's own thermal test does) or on the doubled tree; tdvp_ps2 with the physical-tree TTNO dies in the unused diagonal of hop_expr2 (KeyError from opt_einsum: the output names auxiliary indices no operand carries) - API gap recorded as class observed:ps2-refuses-physical-tree-ttno-on-aux-state, the doubled-tree TTNO is used for that scheme",
+    "auxiliary space: BasisTree.add_auxiliary_space on models without multi-DoF basis sets, prod(d) <= 16; H given as TTNO on the physical tree (as the repository's own thermal test does) or on the doubled tree",
     "imaginary time: TTNS.evolve works on the object it is called on (ttns = self, no copy), so the projector-splitting schemes return their input object - only the RETURNED object is judged, against the reference computed from the dense vector taken before the call (aliasing belongs to C13; recorded as class observed:imag-time-in-place)",
     "cost limits: tdvp_vmf is left out for trees with > 7 nodes in the quick tier; tdvp_ps2 on trees with arity-3 nodes and >= 6 nodes (seconds per step: optimal contraction-path search in hop_expr2) runs in one time mode only (quick) and is replaced in the D/F/history extras",
     "prod(d) <= 150, <= 10 nodes; GPU backend, dump-to-disk and adaptive stepping (not offered by the tree code) not exercised; general complex steps are outside the property (TTNS.evolve keeps only the imaginary part)",
@@ -546,19 +546,7 @@ def oracle_aux(ctx):
         scale = float(np.linalg.norm(ref))
         st = te.fresh_copy(s, sc)
         what = f"evolve|{sc}|{mode}|aux-space"
-        if on_p_tree and sc == "tdvp_ps2":
-            # hop_expr2 always builds the (unused) diagonal of the two-site operator, whose output indices name the
-            # auxiliary DoFs that no operand carries: opt_einsum KeyError.  API gap, not a wrong result: recorded.
-            try:
-                env.reseed_global(rng)
-                out = st.evolve(tm.ttno, tau, normalize=False)
-            except KeyError:
-                ctx.cls("observed:ps2-refuses-physical-tree-ttno-on-aux-state")
-                ctx.count("aux-ps2-physical-tree-ttno-keyerror")
-                st = te.fresh_copy(s, sc)
-                out = te.guarded_evolve(ctx, tm, st, ttno_aux, tau, False, what, sc)
-        else:
-            out = te.guarded_evolve(ctx, tm, st, tm.ttno if on_p_tree else ttno_aux, tau, False, what, sc)
+        out = te.guarded_evolve(ctx, tm, st, tm.ttno if on_p_tree else ttno_aux, tau, False, what, sc)
         got = te.dense_of(out, order)
         e = float(np.linalg.norm(got - ref)) / scale
         bound = (10 * x ** (order_p + 1) + 1e-9) if order_p is not None else EXACT_BOUND[sc]
